@@ -147,16 +147,57 @@ class SDictV(SV):
         return self.val_wrap(self.get(kz))
 
     def pvc_iter(self, I):
-        return SSeq(SInt(self.n), lambda i: self.key_wrap(self.kkey(i)), f"keys({self.tag})")
+        return DictSeq(self, "keys")
+
+    def sorted_key_fn(self, P):
+        """Enumeration of the keys sorted by str order (Str keys) / by name (Sym keys)."""
+        if getattr(self, "_skey", None) is None:
+            self._skey = z3.Function(P.names.fresh(f"{self.tag}_sorted_key"), z3.IntSort(), self.key_sort)
+            self._spos = z3.Function(P.names.fresh(f"{self.tag}_sorted_pos"), self.key_sort, z3.IntSort())
+            i, j = z3.Int(P.names.fresh("ski")), z3.Int(P.names.fresh("skj"))
+            k = z3.Const(P.names.fresh("skk"), self.key_sort)
+            nm = (lambda t: t) if self.key_sort == Str else (lambda t: name_f(t))
+            sk, sp = self._skey, self._spos
+            P.facts.append(z3.ForAll([i], z3.Implies(z3.And(i >= 0, i < self.n), z3.And(self.has(sk(i)), sp(sk(i)) == i)), patterns=[sk(i)]))
+            P.facts.append(z3.ForAll([k], z3.Implies(self.has(k), z3.And(sp(k) >= 0, sp(k) < self.n, sk(sp(k)) == k)), patterns=[self.has(k)]))
+            P.facts.append(z3.ForAll([i, j], z3.Implies(z3.And(i >= 0, i < j, j < self.n), ord_f(nm(sk(i))) < ord_f(nm(sk(j)))), patterns=[z3.MultiPattern(sk(i), sk(j))]))
+        return self._skey
 
     def pvc_getattr(self, I, name):
         if name == "keys":
             return Builtin("dict.keys", lambda I, a, k: KeysView(self))
         if name == "items":
-            return Builtin("dict.items", lambda I, a, k: SSeq(SInt(self.n), lambda i: (self.key_wrap(self.kkey(i)), self.val_wrap(self.get(self.kkey(i)))), f"items({self.tag})"))
+            return Builtin("dict.items", lambda I, a, k: DictSeq(self, "items"))
         if name == "values":
             return Builtin("dict.values", lambda I, a, k: SSeq(SInt(self.n), lambda i: self.val_wrap(self.get(self.kkey(i))), f"values({self.tag})"))
         return NotImplemented
+
+
+class DictSeq(SSeq):
+    """keys / items of a symbolic dict in iteration (insertion) order; sorted() gives the key-sorted enumeration."""
+
+    def __init__(self, d, what):
+        self.d, self.what = d, what
+        if what == "keys":
+            fn = lambda i: d.key_wrap(d.kkey(i))
+        else:
+            fn = lambda i: (d.key_wrap(d.kkey(i)), d.val_wrap(d.get(d.kkey(i))))
+        super().__init__(SInt(d.n), fn, f"{what}({d.tag})")
+        self.pvc_type = "list"
+
+    def pvc_sorted(self, I, key, rev):
+        if rev or key is not None:
+            raise Unsupported("sorted(dict view) with key/reverse")
+        if self.d.key_sort != Str:
+            raise Unsupported("sorted() of non-string dict keys (sympy symbols do not define a total order)")
+        sk = self.d.sorted_key_fn(I.path)
+        d = self.d
+        if self.what == "keys":
+            s = SSeq(SInt(d.n), lambda i: d.key_wrap(sk(i)), f"sorted(keys({d.tag}))")
+        else:
+            s = SSeq(SInt(d.n), lambda i: (d.key_wrap(sk(i)), d.val_wrap(d.get(sk(i)))), f"sorted(items({d.tag}))")
+        s.pvc_type = "list"
+        return s
 
 
 class KeysView(SV):
@@ -165,6 +206,12 @@ class KeysView(SV):
 
     def pvc_iter(self, I):
         return self.d.pvc_iter(I)
+
+    def pvc_list(self, I):
+        return self.d.pvc_iter(I)
+
+    def pvc_set(self, I):
+        raise Unsupported("set(dict.keys()) of a symbolic dict")
 
     def pvc_len(self, I):
         return SInt(self.d.n)
@@ -196,3 +243,109 @@ class SeqDict:
 
     def pvc_len(self, I):
         return SInt(self.n)
+
+
+# ------------------------------------------------------------------------------------------------
+# finite sets of symbols / strings; declared containers (set | list)
+
+SymSet = z3.DeclareSort("SymSet")
+member_f = z3.Function("member", SymSet, Sym, z3.BoolSort())
+card_f = z3.Function("card", SymSet, z3.IntSort())
+srt_f = z3.Function("srt", SymSet, z3.IntSort(), Sym)  # enumeration sorted by name
+spos_f = z3.Function("srt_pos", SymSet, Sym, z3.IntSort())
+lst_f = z3.Function("hash_order", SymSet, z3.IntSort(), Sym)  # iteration order of the python set (ORDER TOKEN)
+
+
+def symset_axioms(P, t):
+    """sorted-by-name enumeration of a finite set whose elements have pairwise distinct names."""
+    i, j = z3.Int(P.names.fresh("si")), z3.Int(P.names.fresh("sj"))
+    x = z3.Const(P.names.fresh("sx"), Sym)
+    n = card_f(t)
+    P.assume(n >= 0)
+    P.facts.append(z3.ForAll([i], z3.Implies(z3.And(i >= 0, i < n), z3.And(member_f(t, srt_f(t, i)), spos_f(t, srt_f(t, i)) == i)), patterns=[srt_f(t, i)]))
+    P.facts.append(z3.ForAll([x], z3.Implies(member_f(t, x), z3.And(spos_f(t, x) >= 0, spos_f(t, x) < n, srt_f(t, spos_f(t, x)) == x)), patterns=[member_f(t, x)]))
+    P.facts.append(z3.ForAll([i, j], z3.Implies(z3.And(i >= 0, i < j, j < n), ord_f(name_f(srt_f(t, i))) < ord_f(name_f(srt_f(t, j)))), patterns=[z3.MultiPattern(srt_f(t, i), srt_f(t, j))]))
+    # the hash-order enumeration is a permutation of the same elements
+    P.facts.append(z3.ForAll([i], z3.Implies(z3.And(i >= 0, i < n), member_f(t, lst_f(t, i))), patterns=[lst_f(t, i)]))
+
+
+class SSetV(SV):
+    """A declared symbol container: python set (unordered, ORDER TOKEN on iteration) or list."""
+
+    def __init__(self, P, tag, container="set"):
+        self.term = z3.Const(P.names.fresh(tag), SymSet)
+        self.container = container
+        self.pvc_type = container
+        symset_axioms(P, self.term)
+
+    def has(self, xz):
+        return member_f(self.term, xz)
+
+    def card(self):
+        return card_f(self.term)
+
+    def pvc_len(self, I):
+        return SInt(self.card())
+
+    def pvc_truth(self, I):
+        return self.card() > 0
+
+    def pvc_contains(self, I, x):
+        if isinstance(x, SymV):
+            return wrap(self.has(x.z))
+        return False
+
+    def pvc_iter(self, I):
+        return OrderedView(self, "hash")
+
+    def pvc_list(self, I):
+        return OrderedView(self, "hash")
+
+    def pvc_set(self, I):
+        if self.container == "set":
+            return self
+        s = SSetV.__new__(SSetV)
+        s.term, s.container, s.pvc_type = self.term, "set", "set"
+        return s
+
+    def sorted_seq(self):
+        t = self.term
+        s = SSeq(SInt(card_f(t)), lambda i: SymV(srt_f(t, i)), f"sorted({t})")
+        s.pvc_type = "list"
+        return s
+
+    def pvc_eq(self, I, other):
+        if isinstance(other, SSetV):
+            if self.container != other.container:
+                return False  # a set never equals a list
+            if z3.eq(self.term, other.term):
+                return True
+            x = z3.Const(I.path.names.fresh("ex"), Sym)
+            if self.container == "set":
+                return wrap(z3.ForAll([x], member_f(self.term, x) == member_f(other.term, x)))
+        return NotImplemented
+
+
+class OrderedView(SSeq):
+    """list(S) / iteration of a python set: an arbitrary (hash-seed dependent) enumeration."""
+
+    def __init__(self, s, order):
+        t = s.term
+        super().__init__(SInt(card_f(t)), lambda i: SymV(lst_f(t, i)), f"list({t})")
+        self.set = s
+        self.order_token = True
+        self.pvc_type = "list"
+
+    def pvc_sorted(self, I, key, rev):
+        if rev:
+            raise Unsupported("sorted(reverse=True) of a symbol set")
+        if key is None:
+            raise Unsupported("sorted() of symbols without key")
+        probe = SymV(z3.Const("probe_sym", Sym))
+        kv = I.call(key, [probe], {})
+        if isinstance(kv, StrV) and z3.eq(kv.z, name_f(probe.z)):
+            return self.set.sorted_seq()
+        raise Unsupported("sorted() of symbols by a key other than .name")
+
+    def pvc_set(self, I):
+        return self.set.pvc_set(I)
